@@ -192,15 +192,38 @@ def computeHypervolumeFin (S : List Pt) (r : Pt) (assumePareto : Bool) : Int :=
     else frontSorted id d (uniqueLex S)
   if d = 2 then compute2d r sorted else computeHv d r sorted
 
+/-- IEEE `a < b` (false as soon as NaN is involved) -/
+def EInt.lt (a b : EInt) : Bool := a.le b && !(b.le a)
+
+/-- `np.all(p < r)` for one row -/
+def allLtE : List EInt → List EInt → Bool
+  | a :: p, b :: q => a.lt b && allLtE p q
+  | [], [] => true
+  | _, _ => false
+
+/-- the same on finite rows -/
+def allLt : Pt → Pt → Bool
+  | a :: p, b :: q => decide (a < b) && allLt p q
+  | [], [] => true
+  | _, _ => false
+
+/-- `loss_vals[np.all(loss_vals < reference_point, axis=1)]`: the rows that do not touch the reference point -/
+def dropTouching (S : List Pt) (r : Pt) : List Pt := S.filter (fun p => allLt p r)
+
 /-- `compute_hypervolume(loss_vals, reference_point, assume_pareto)`.
-A point with a `-inf` coordinate (reference finite) makes some `inclusive_hv` `inf` or `nan`, every
-sum/difference it enters stays non-finite, and the last line maps non-finite to `inf`; this IEEE fact
-is modelled by the third branch (sampled by the tie, not proved). -/
+After the reference-point check and the early return for a non-finite reference point, rows that touch the
+reference point in some coordinate are dropped (they dominate a box of zero volume); nothing left => `0.0`.
+A remaining row with a `-inf` coordinate is strictly below a finite reference point in every coordinate: its
+`inclusive_hv` / sweep term is `inf` or `nan`, every sum/difference it enters stays non-finite, and the last line
+maps non-finite to `inf`; this IEEE fact is modelled by the `any` branch (sampled by the tie, not proved). -/
 def computeHypervolume (S : List (List EInt)) (r : List EInt) (assumePareto : Bool) : HvOut :=
   if !(S.all (fun p => allLeE p r)) then .error
   else if !(r.all EInt.isFinite) then .inf
-  else if S.any (fun p => p.any (fun c => !c.isFinite)) then .inf
-  else .fin (computeHypervolumeFin (S.map (·.map EInt.toInt)) (r.map EInt.toInt) assumePareto)
+  else
+    let S' := S.filter (fun p => allLtE p r)
+    if S'.isEmpty then .fin 0
+    else if S'.any (fun p => p.any (fun c => !c.isFinite)) then .inf
+    else .fin (computeHypervolumeFin (S'.map (·.map EInt.toInt)) (r.map EInt.toInt) assumePareto)
 
 /-! ## executable rendition of the specification (brute force over unit cells) -/
 
